@@ -444,6 +444,7 @@ def _task_families(thorough):
                None, 'family': tag}
         check_parse(res, raw, tag, rep)
         check_protocol(res, raw, tag, rep)
+        _check_copy(res, raw, tag, rep)
     res.count('states', len(fam))
     res.count('nontrivial', len(fam))
     return res
@@ -566,7 +567,11 @@ def scalable_families():
                 'a{sv}': [[['k%d' % i, Var('s', 'v')] for i in range(m)]],
                 'aau': [[[i, i] for i in range(m)]],
                 'av': [[Var('au', [i]) for i in range(m)]],
-                'a(sau)': [[['s', [i]] for i in range(m)]]}[sig]
+                'a(sau)': [[['s', [i]] for i in range(m)]],
+                # many small / empty arrays (alignment padding only)
+                'aax': [[[] for i in range(m)]],
+                'a{sa{sv}}': [[['k%d' % i, [['p', Var('y', 1)]] if i % 2
+                               else []] for i in range(m)]]}[sig]
         return R.encode(sig, vals, little=little)
 
     # repeated fields: every header-field code (and an unknown one) m times,
@@ -583,7 +588,8 @@ def scalable_families():
                                        if code == 8 else sig,
                                        body_of(sig, m))
         out.append(('repeat-field:%d:%s' % (code, var.sig), fn))
-    for sig in ('au', 'as', 'a(yv)', 'a{sv}', 'aau', 'av', 'a(sau)'):
+    for sig in ('au', 'as', 'a(yv)', 'a{sv}', 'aau', 'av', 'a(sau)', 'aax',
+                'a{sa{sv}}'):
         out.append(('grow:' + sig,
                     lambda m, sig=sig: message_with_fields(
                         base, sig, body_of(sig, m))))
@@ -604,6 +610,37 @@ def _lines_of(raw):
     return st, n
 
 
+def copy_budget(n):
+    return 4 * n + 4096
+
+
+def _copied(raw):
+    """bytes sliced out of the input (and out of slices of it) while it is
+    parsed; None when the parse does not come back"""
+    from txdbus import message as M
+    cb = meter.CountingBytes(raw)
+    with core.Watchdog(120):
+        try:
+            M.parseMessage(cb, [3, 4])
+        except core.ExecutionTimeout:
+            return None
+        except Exception:
+            pass
+    return cb.copied
+
+
+def _check_copy(res, raw, tag, rep):
+    c = _copied(raw)
+    if c is None or c > copy_budget(len(raw)):
+        res.violation('%s/copying/%s' % (PROP, tag),
+                      'parseMessage sliced %s bytes out of a %d byte input '
+                      '(%s); budget %d' % (c, len(raw), tag,
+                                           copy_budget(len(raw))), rep,
+                      size=len(raw))
+    res.setmax('max_copied_per_byte_x100',
+               int(100 * (c or 0) / max(len(raw), 1)))
+
+
 def _task_scaling(task):
     """work at size 4m against work at size m: a + b*m satisfies
     w(4m) <= 4*w(m); anything with a quadratic term that matters does not"""
@@ -620,6 +657,15 @@ def _task_scaling(task):
         st4, n4 = _lines_of(raw4)
         res.setmax('max_lines', n4)
         res.outcome((name.split(':')[0], st1, st4))
+        c1, c4 = _copied(raw1), _copied(raw4)
+        if c1 is None or c4 is None or c4 > 5 * c1 + 5000 or \
+                c4 > copy_budget(len(raw4)):
+            res.violation('%s/superlinear-copying/%s' % (PROP, name),
+                          'family %s: %s bytes sliced out of a %d byte input '
+                          '(m=%d) but %s out of %d bytes (m=%d)'
+                          % (name, c1, len(raw1), m, c4, len(raw4), 4 * m),
+                          {'part': 'scaling', 'idx': idx, 'm': m},
+                          size=len(raw1))
         if n4 > 5 * n1 + 5000:
             res.violation('%s/superlinear/%s' % (PROP, name),
                           'family %s: %d line events for %d bytes (m=%d) but '
@@ -726,8 +772,10 @@ def run(ctx):
     ctx.rule = (
         'work meter = interpreter line events, budget 600000 + 100*len; '
         'allocation meter = tracemalloc peak during the call, budget 4 MB + '
-        '200*len; scaling: 25 families measured at m and 4m (m = 50, 200%s), '
-        'work(4m) <= 5*work(m)+5000. '
+        '200*len; scaling: 29 families measured at m and 4m (m = 50, 200%s), '
+        'work(4m) <= 5*work(m)+5000; copy meter = bytes sliced out of the '
+        'input and out of slices of it, budget 4*len + 4096, same scaling '
+        'rule. '
         'For each of %d base messages (all four types, both byte orders, all '
         'container kinds): every truncation; every position x %s (all 256 '
         'values in the first 80 bytes when thorough); every aligned 32-bit '
@@ -746,7 +794,8 @@ def run(ctx):
            len(base_messages()), '{00,01,7f,80,ff,low-bit flip,a(){}vysg}',
            L, SIG_ALPHABET, len(_bodies()),
            '' if ctx.quick else ' and 200 kB'))
-    ctx.bounds = {'hostile_signature_max_len': L,
+    ctx.bounds = {'copy_budget': '4*len + 4096 bytes sliced',
+                  'hostile_signature_max_len': L,
                   'budget': '600000 + 100*len line events',
                   'allocation_budget': '4000000 + 200*len bytes'}
     ctx.assumptions = [
